@@ -213,6 +213,10 @@ def smt_check(pc, goal, timeout_ms=None, want_model=None, use_cvc5=True, defs=No
     # stage 2: the original query by relevance layers.  unsat of a weaker/abstracted query is unsat of the
     # original (sound); sat answers are only ever taken from the original, complete query below.
     from .smt import deselect
+    deadline = t0 + float(os.environ.get('PYVC_DEADLINE_S', '30'))
+
+    def left():
+        return deadline - time.time()
     # stage 0: focused query (literals propagated, only the definitions that are referred to)
     try:
         fq, fg = focused_query(pc, goal, defs)
@@ -224,7 +228,7 @@ def smt_check(pc, goal, timeout_ms=None, want_model=None, use_cvc5=True, defs=No
                 s.add(c)
             if s.check() == z3.unsat:
                 return 'discharged', 'z3-%s(focused %d/%d)' % (z3.get_version_string(), len(fq), len(pc)), time.time() - t0, None, None
-        if use_cvc5 and has_seq_terms(fflat) and cvc5_formulas(fflat, 10) == 'unsat':
+        if use_cvc5 and has_seq_terms(fflat) and left() > 3 and cvc5_formulas(fflat, max(2, min(10, int(left() / 2)))) == 'unsat':
             return 'discharged', 'cvc5-1.0.3(focused %d/%d)' % (len(fq), len(pc)), time.time() - t0, None, None
     except z3.Z3Exception:
         pass
@@ -234,6 +238,8 @@ def smt_check(pc, goal, timeout_ms=None, want_model=None, use_cvc5=True, defs=No
     except z3.Z3Exception:
         flat = None
     budget = min(timeout_ms or Z3_TIMEOUT_MS, 4000)
+    if left() < 12:
+        flat = None            # out of time for the secondary stages: go straight to the complete query
     if flat is not None:
         fpc, fneg = flat[:len(pc)], flat[len(pc)]
         extra = flat[len(pc) + 1:]
@@ -249,11 +255,11 @@ def smt_check(pc, goal, timeout_ms=None, want_model=None, use_cvc5=True, defs=No
             s.add(fneg)
             if s.check() == z3.unsat:
                 return 'discharged', 'z3-%s(select-free, %d/%d assumptions)' % (z3.get_version_string(), len(rel), len(pc)), time.time() - t0, None, None
-    if flat is not None and use_cvc5 and has_seq_terms(flat):
-        if cvc5_formulas(flat, 15) == 'unsat':
+    if flat is not None and use_cvc5 and has_seq_terms(flat) and left() > 10:
+        if cvc5_formulas(flat, max(2, min(15, int(left() / 2)))) == 'unsat':
             return 'discharged', 'cvc5-1.0.3(select-free)', time.time() - t0, None, None
     prev = -1
-    for rel in relevance_layers(pc, goal):
+    for rel in (relevance_layers(pc, goal) if left() > 12 else []):
         if len(rel) == prev or len(rel) >= len(pc):
             continue
         prev = len(rel)
@@ -265,7 +271,7 @@ def smt_check(pc, goal, timeout_ms=None, want_model=None, use_cvc5=True, defs=No
         if s.check() == z3.unsat:
             return 'discharged', 'z3-%s(relevant %d/%d)' % (z3.get_version_string(), len(rel), len(pc)), time.time() - t0, None, None
     s = z3.Solver()
-    s.set('timeout', timeout_ms or Z3_TIMEOUT_MS)
+    s.set('timeout', int(max(3000, min(timeout_ms or Z3_TIMEOUT_MS, left() * 1000))))
     for c in pc:
         s.add(c)
     s.add(z3.Not(goal))
@@ -280,8 +286,8 @@ def smt_check(pc, goal, timeout_ms=None, want_model=None, use_cvc5=True, defs=No
                 vals[k] = model_value(m, t)
         return 'refuted', 'z3-%s' % z3.get_version_string(), time.time() - t0, vals, None
     reason = s.reason_unknown()
-    if use_cvc5:
-        st = cvc5_check(s)
+    if use_cvc5 and left() > 3:
+        st = cvc5_check(s, max(2, int(left())))
         if st == 'unsat':
             return 'discharged', 'cvc5-1.0.3', time.time() - t0, None, None
     return 'undecided', 'z3+cvc5', time.time() - t0, None, reason
